@@ -28,7 +28,7 @@ func (w *World) newVC(fn *ssa.Function, con *Contract) *VC {
 		mode = con.Mode
 	}
 	vc := &VC{w: w, fn: fn, con: con, mode: mode, sorts: newSorts(mode), compSrt: map[string]string{}, strLits: map[string]string{},
-		declFns: map[string]bool{}, inlined: map[string]bool{}, assumed: map[string]bool{}, uses: map[string]bool{}, siteN: map[string]int{},
+		declFns: map[string]bool{}, inlined: map[string]bool{}, assumed: map[string]bool{}, assumedWF: map[string]bool{}, uses: map[string]bool{}, siteN: map[string]int{},
 		fname: funcKey(fn), lenSeen: map[string]bool{}}
 	if con != nil {
 		for _, u := range con.Uses {
@@ -231,6 +231,19 @@ func (w *World) verifyFunction(fn *ssa.Function, con *Contract) (vc *VC) {
 			f.bind = append(f.bind, v)
 		}
 	}
+	if con == nil || con.Opts["inputs"] == "wf" {
+		// zero-annotation sweep: the inputs are well-formed (C20: "nil arguments are
+		// excluded", "composed of the supported BSON types")
+		vc.sweep = true
+		for i, p := range fn.Params {
+			f.assumeInputWF(f.args[i].(Term), p.Type())
+		}
+		for i, fv := range fn.FreeVars {
+			if t, ok := f.bind[i].(Term); ok {
+				f.assumeInputWF(t, fv.Type())
+			}
+		}
+	}
 	env := &Env{f: f, vars: paramEVs(fn, fn.Signature, f.args, false), st: st, old: st}
 	if fn.Pkg != nil {
 		env.pkg = fn.Pkg.Pkg
@@ -242,16 +255,26 @@ func (w *World) verifyFunction(fn *ssa.Function, con *Contract) (vc *VC) {
 	}
 	vc.topEnv = env
 	vc.params = params
+	if env.pkg != nil {
+		for _, g := range parsedGlobals[shortPkg(env.pkg.Path())] {
+			t, err := env.trBool(g)
+			if err != nil {
+				vc.failed = fmt.Errorf("global %q: %v", g, err)
+				return vc
+			}
+			vc.assume(t)
+		}
+	}
 	if con != nil {
 		for _, l := range con.Lets {
 			text := l[1]
-			env.vars[l[0]] = EV{V: func(e *Env) Term {
-				t, err := e.tr(text, "")
+			env.vars[l[0]] = EV{V: letFn(func(e *Env) (Term, types.Type) {
+				t, ty, err := e.trTyped(text, "")
 				if err != nil {
 					panic(err)
 				}
-				return t
-			}}
+				return t, ty
+			})}
 		}
 		for _, r := range con.Requires {
 			t, err := env.trBool(r.Text)
@@ -312,10 +335,30 @@ func (w *World) verifyFunction(fn *ssa.Function, con *Contract) (vc *VC) {
 				for _, rv := range rvals {
 					o.RetTerms = append(o.RetTerms, rv.(Term).S)
 				}
+				if hasTag(e.Tags, "lemma") {
+					// an auxiliary postcondition: proved like any other, and then
+					// available to the clauses that follow it at this return point
+					vc.assume(tImp(r.cond, t))
+				}
 			}
 		}
 		if len(f.rets) == 0 && len(con.Ensures) > 0 {
 			vc.note("%s: no return point reached; postconditions hold vacuously", funcKey(fn))
+		}
+	}
+	// sweep: what the callers assume of the results (wfTerm) is an obligation here
+	if vc.sweep && con == nil {
+		retNames := f.returnNames()
+		for ri, r := range f.rets {
+			for i, v := range r.vals {
+				rt := fn.Signature.Results().At(i).Type()
+				t := f.wfTerm(f.valueTerm(v), rt, false)
+				if t.S == "true" {
+					continue
+				}
+				o := vc.oblige("post", fmt.Sprintf("post#wf%d@%s", i, retNames[ri]), []string{"C20"}, r.cond, t, f.pos(r.pos))
+				o.Desc = "the returned value consists of supported BSON types"
+			}
 		}
 	}
 	// cover: some return is reachable under the preconditions
@@ -328,6 +371,36 @@ func (w *World) verifyFunction(fn *ssa.Function, con *Contract) (vc *VC) {
 		vc.obligs = append(vc.obligs, o)
 	}
 	return vc
+}
+
+// wfTerm is the well-formedness fact the sweep assumes of an input (and of a
+// value that comes back from a callee without contract): pointers, maps and
+// function values are not nil; interface{} values and the elements of bson.D /
+// bson.A are supported BSON values all the way down.
+func (f *Frame) wfTerm(v Term, t types.Type, nonNil bool) Term {
+	switch v.Sort {
+	case sRef, sFn:
+		if nonNil {
+			return T(sBool, "(not (= %s 0))", v.S)
+		}
+	case sVal:
+		f.vc.uses["wf"] = true
+		return T(sBool, "(wfVal %s)", v.S)
+	case "Seq_Val":
+		f.vc.uses["wf"] = true
+		return T(sBool, "(wfVal (VArr %s))", v.S)
+	case "Seq_S_primitive_E":
+		f.vc.uses["wf"] = true
+		return T(sBool, "(wfVal (VDoc %s))", v.S)
+	case "S_primitive_E":
+		f.vc.uses["wf"] = true
+		return T(sBool, "(wfVal (S_primitive_E.Value %s))", v.S)
+	}
+	return tTrue()
+}
+
+func (f *Frame) assumeInputWF(v Term, t types.Type) {
+	f.vc.assume(f.wfTerm(v, t, true))
 }
 
 // localLookup resolves source-level names of locals through the recorded debug refs.
